@@ -60,7 +60,7 @@ func c07Registered(cfg []c07Entry) map[string]c07Entry {
 	return m
 }
 
-var c07Variants = []string{"own-name", "absent", "null", "unknown-url", "other-builtin-name", "ext0-name", "ext1-name", "own-tag-ext-name", "both-keys", "wrong-type", "own-name-json-escaped", "own-name-respelled", "refused-registration-name", "own-name-key-long-head", "unknown-url-key-long-head", "own-name+other-name-under-congruent-key", "own-name-indefinite-length-map", "unknown-url-indefinite-length-map"}
+var c07Variants = []string{"own-name", "absent", "null", "unknown-url", "other-builtin-name", "ext0-name", "ext1-name", "own-tag-ext-name", "both-keys", "wrong-type", "own-name-json-escaped", "own-name-respelled", "refused-registration-name", "own-name-key-long-head", "unknown-url-key-long-head", "own-name+other-name-under-congruent-key", "own-name-indefinite-length-map", "unknown-url-indefinite-length-map", "key-265-twice:unknown-then-registered+wide-key", "key-265-twice:unknown-then-null"}
 
 type c07Token struct {
 	shape      int  // key family of the claims in the token
@@ -70,6 +70,7 @@ type c07Token struct {
 	otherVal   *string // value under the other family's profile key/member
 	ownTagVal  *string // value under the "own-profile" JSON member (JSON only)
 	indefinite bool    // the CBOR form is an indefinite-length map
+	dup265     bool    // the CBOR form carries key 265 twice, the first time with an unregistered name: an error (CBOR only)
 	cbor       []byte
 	json       []byte
 }
@@ -96,6 +97,9 @@ func c07Build(shape int, valid bool, variant int) *c07Token {
 		t.ownVal = own
 	case "unknown-url-key-long-head", "unknown-url-indefinite-length-map":
 		t.ownVal = "http://unknown.example/p"
+	case "key-265-twice:unknown-then-registered+wide-key", "key-265-twice:unknown-then-null":
+		t.ownAbsent = true
+		t.dup265 = true
 	case "absent":
 		t.ownAbsent = true
 	case "null":
@@ -156,6 +160,14 @@ func c07Build(shape int, valid bool, variant int) *c07Token {
 		// an unknown key that equals the profile-2 selector key modulo 2^32 carries the other profile's name (CBOR only)
 		tree.Pairs = append([][2]*mcbor.Node{{mcbor.U(1<<32 + 265), mcbor.T(other)}}, tree.Pairs...)
 	}
+	if t.dup265 {
+		second := mcbor.Null()
+		if strings.HasSuffix(c07Variants[variant], "+wide-key") {
+			second = mcbor.T(refmodel.P1Name)
+			tree.Pairs = append(tree.Pairs, [2]*mcbor.Node{mcbor.U(1<<63 + 5), mcbor.U(0)})
+		}
+		tree.Pairs = append([][2]*mcbor.Node{{mcbor.U(265), mcbor.T("http://unknown.example/p")}, {mcbor.U(265), second}}, tree.Pairs...)
+	}
 	if strings.HasSuffix(c07Variants[variant], "-indefinite-length-map") {
 		tree = tree.Ind() // CBOR only; the library's decoder mode forbids indefinite-length items: an error whatever it declares
 		t.indefinite = true
@@ -205,7 +217,7 @@ func c07Model(t *c07Token, cfg []c07Entry, isJSON bool) c07Expect {
 	reg := c07Registered(cfg)
 	var e c07Entry
 	two := t.otherVal != nil
-	if !isJSON && t.indefinite {
+	if !isJSON && (t.indefinite || t.dup265) {
 		return c07Expect{err: true}
 	}
 	if !isJSON {
